@@ -7,7 +7,7 @@ from sa.engine.callgraph import calls_in, resolve_call
 from sa.engine.cfg import must_pass_after, normally_dominates
 from sa.engine.context import Ctx
 from sa.engine.guards import atoms, path_conditions
-from sa.engine.loader import AnalysisError, dotted, norm, short, walk_own
+from sa.engine.loader import anorm, local_names, AnalysisError, dotted, norm, short, walk_own
 from sa.engine.report import Finding, RuleReport
 from sa.rules.common import exception_family, raised_class
 
@@ -102,17 +102,38 @@ def rule_io(ctx: Ctx) -> RuleReport:
     return rep
 
 
+def _acond(conds, fn_node) -> set[str]:
+    """Path conditions with local names replaced by v0, v1.. (each condition numbered on its own)."""
+    locs = local_names(fn_node)
+    out = set()
+    for c in conds:
+        try:
+            out.add(anorm(ast.parse(str(c), mode="eval").body, rename=locs))
+        except SyntaxError:
+            out.add(str(c))
+    return out
+
+
+def _resp_var(send) -> str | None:
+    """The local of _send that holds the open response: assigned from self._request(...)."""
+    for n in walk_own(send.node):
+        if isinstance(n, ast.Assign) and len(n.targets) == 1 and isinstance(n.targets[0], ast.Name) and isinstance(n.value, ast.Call) and (dotted(n.value.func) or "") == "self._request":
+            return n.targets[0].id
+    return None
+
+
 def rule_err(ctx: Ctx) -> RuleReport:
     rep = RuleReport("C18-ERR", "fallible calls on the request path are converted into the client's own error family")
     fam = _family(ctx)
     cls, methods = _methods(ctx)
+    RV = _resp_var(methods["_send"]) or "response"
     for name, fi in methods.items():
         for c in calls_in(fi):
             d = dotted(c.func) or ""
             kind = None
             if d == "self._request":
                 kind = "transport"
-            elif d in ("response.read", "response.getcode"):
+            elif d in (f"{RV}.read", f"{RV}.getcode"):
                 kind = "read"
             elif d == "json.loads":
                 kind = "json"
@@ -149,8 +170,8 @@ def rule_err(ctx: Ctx) -> RuleReport:
                 else:
                     rep.fail(Finding("C18-ERR", CL, send.qual, "except HTTPError", "the HTTP status of the failed request is not reported", line=h.lineno))
     # non-2xx without exception is rejected
-    tests = [norm(n.test) for n in walk_own(send.node) if isinstance(n, ast.If) and n.body and isinstance(n.body[-1], ast.Raise)]
-    if "status is None or not 200 <= status < 300" in tests:
+    tests = [anorm(n.test, send.node) for n in walk_own(send.node) if isinstance(n, ast.If) and n.body and isinstance(n.body[-1], ast.Raise)]
+    if "v0 is None or not 200 <= v0 < 300" in tests:
         rep.ok({"non_2xx": "rejected"})
     else:
         rep.fail(Finding("C18-ERR", CL, send.qual, "; ".join(tests), "a non-2xx status returned without exception is no longer rejected (expected `status is None or not 200 <= status < 300`)", line=send.node.lineno))
@@ -165,8 +186,9 @@ def rule_err(ctx: Ctx) -> RuleReport:
         rep.fail(Finding("C18-ERR", CL, gj.qual, "return json.loads(text)", "_get_json can return a JSON value that is not an object; callers use .get on it and fail with AttributeError", line=gj.node.lineno))
     ft = methods["fetch_access_token"]
     cfgt = ctx.cfg(ft)
-    gets = [c for c in calls_in(ft) if norm(c.func) == "data.get"]
-    chk = [n for n in walk_own(ft.node) if isinstance(n, ast.If) and norm(n.test) in ("not isinstance(data, dict)",) and isinstance(n.body[-1], ast.Raise)]
+    chk = [n for n in walk_own(ft.node) if isinstance(n, ast.If) and anorm(n.test, ft.node) in ("not isinstance(v0, dict)",) and isinstance(n.body[-1], ast.Raise)]
+    dvar = next((x.id for n in chk for x in ast.walk(n.test) if isinstance(x, ast.Name) and x.id not in ("isinstance", "dict")), "data")
+    gets = [c for c in calls_in(ft) if norm(c.func) == f"{dvar}.get"]
     if gets and chk and all(all(normally_dominates(cfgt, cfgt.evaluators(chk[0].test), b) for b in cfgt.evaluators(g)) for g in gets):
         rep.ok({"fetch_access_token": "token answer checked to be an object"})
     else:
@@ -180,8 +202,9 @@ def rule_close(ctx: Ctx) -> RuleReport:
     send = methods["_send"]
     rep.unit(send.key)
     cfg = ctx.cfg(send)
-    acq = [n for n in walk_own(send.node) if isinstance(n, ast.Assign) and norm(n.targets[0]) == "response" and isinstance(n.value, ast.Call)]
-    closes = [c for c in calls_in(send) if norm(c.func) == "response.close"]
+    RV = _resp_var(send)
+    acq = [n for n in walk_own(send.node) if isinstance(n, ast.Assign) and RV is not None and norm(n.targets[0]) == RV and isinstance(n.value, ast.Call)]
+    closes = [c for c in calls_in(send) if norm(c.func) == f"{RV}.close"]
     if not acq:
         raise AnalysisError("C18-CLOSE: response acquisition not found in _send")
     if not closes:
@@ -190,7 +213,7 @@ def rule_close(ctx: Ctx) -> RuleReport:
         through = [x for c in closes for x in cfg.evaluators(c)]
         # `if response is not None:` around the close: the false branch means there is nothing to close
         for nd in cfg.nodes:
-            if nd.kind == "test" and norm(nd.ast) == "response is not None":
+            if nd.kind == "test" and norm(nd.ast) == f"{RV} is not None":
                 through += [s2 for s2 in cfg.succ[nd.id] if cfg.elabel.get((nd.id, s2)) == "false"]
         w = must_pass_after(cfg, [x for a in acq for x in cfg.evaluators(a)], through)
         if w is None:
@@ -406,11 +429,12 @@ def rule_part(ctx: Ctx) -> RuleReport:
     li = methods["_list_items_paginated"]
     wk = methods["_walk_drive_items"]
     # folder predicate
-    apps = [c for c in calls_in(gf) if norm(c.func) == "folders.append"]
+    rets_gf = {n.value.id for n in walk_own(gf.node) if isinstance(n, ast.Return) and isinstance(n.value, ast.Name)}
+    apps = [c for c in calls_in(gf) if isinstance(c.func, ast.Attribute) and c.func.attr == "append" and isinstance(c.func.value, ast.Name) and c.func.value.id in rets_gf]
     for a in apps:
         conds, opaque, _ = path_conditions(gf.node, a, terminals=("continue", "return", "break"))
-        cs = {str(c) for c in conds} - {"current_url"}
-        if cs == {"isinstance(item, dict)", "'folder' in item"} and not opaque:
+        cs = _acond(conds, gf.node) - {"v0"}
+        if cs == {"isinstance(v0, dict)", "'folder' in v0"} and not opaque:
             rep.ok({"folder_predicate": sorted(cs)})
         else:
             rep.fail(Finding("C18-PART", CL, gf.qual, " and ".join(sorted(cs) + opaque), f"a folder is kept only under `{' and '.join(sorted(cs) + opaque)}`; expected exactly `isinstance(item, dict) and 'folder' in item` (folders dropped here are never walked)", line=a.lineno))
@@ -419,23 +443,27 @@ def rule_part(ctx: Ctx) -> RuleReport:
     ys = [y for y in walk_own(li.node) if isinstance(y, ast.Yield)]
     for y in ys:
         conds, opaque, _ = path_conditions(li.node, y, terminals=("continue", "return", "break"))
-        cs = {str(c) for c in conds} - {"current_url"}
-        if cs == {"isinstance(item, dict)", "'folder' not in item", "'file' in item"} and not opaque:
+        cs = _acond(conds, li.node) - {"v0"}
+        if cs == {"isinstance(v0, dict)", "'folder' not in v0", "'file' in v0"} and not opaque:
             rep.ok({"file_predicate": sorted(cs)})
         else:
             rep.fail(Finding("C18-PART", CL, li.qual, " and ".join(sorted(cs) + opaque), f"a file is yielded only under `{' and '.join(sorted(cs) + opaque)}`; expected `isinstance(item, dict) and 'folder' not in item and 'file' in item`", line=y.lineno))
-        if norm(y.value) == "self._parse_file_item(item, parent_path)":
+        if anorm(y.value, li.node) == "self._parse_file_item(v0, parent_path)":
             rep.ok()
         else:
             rep.fail(Finding("C18-PART", CL, li.qual, norm(y.value), "files are not yielded with the parent path of the folder being listed", line=y.lineno))
     for f in (gf, li):
-        txt = [norm(n) for n in walk_own(f.node) if isinstance(n, ast.Assign)]
-        if "current_url = data.get('@odata.nextLink')" in txt and "items = data.get('value', [])" in txt and any(norm(w.test) == "current_url" for w in walk_own(f.node) if isinstance(w, ast.While)):
+        txt = [anorm(n, f.node) for n in walk_own(f.node) if isinstance(n, ast.Assign)]
+        whiles = [w for w in walk_own(f.node) if isinstance(w, ast.While) and isinstance(w.test, ast.Name)]
+        cur = whiles[0].test.id if whiles else None
+        nxt = [n for n in walk_own(f.node) if isinstance(n, ast.Assign) and cur and norm(n.targets[0]) == cur and "'@odata.nextLink'" in norm(n.value)]
+        if nxt and "v0 = v1.get('value', [])" in txt and whiles:
             rep.ok({f.qual: "iterates value[] of every page until @odata.nextLink is absent"})
         else:
             rep.fail(Finding("C18-PART", CL, f.qual, "pagination", "the pagination loop no longer follows @odata.nextLink over value[] of every page", line=f.node.lineno))
         loops = [n for n in walk_own(f.node) if isinstance(n, ast.For)]
-        if loops and norm(loops[0].iter) == "items":
+        items_vars = {n.targets[0].id for n in walk_own(f.node) if isinstance(n, ast.Assign) and len(n.targets) == 1 and isinstance(n.targets[0], ast.Name) and ".get('value', [])" in norm(n.value)}
+        if loops and norm(loops[0].iter) in items_vars:
             rep.ok()
         else:
             rep.fail(Finding("C18-PART", CL, f.qual, norm(loops[0].iter) if loops else "?", "not every item of a page is looked at", line=f.node.lineno))
@@ -461,7 +489,7 @@ def rule_part(ctx: Ctx) -> RuleReport:
     else:
         # structure changed (e.g. extra bookkeeping): fall back to necessary conditions
         txt = " ; ".join(norm(s) for s in wk.node.body)
-        if "yield item" in txt and "self._walk_drive_items(site_id, folder_id" in txt and "parent_path=new_parent_path" in txt:
+        if "yield " in txt and "self._walk_drive_items(site_id, " in txt and "parent_path=" in txt:
             rep.residual.append("_walk_drive_items no longer matches its template; only the presence of the file loop and the recursion was checked")
             rep.obligations += 1
         else:
